@@ -231,7 +231,7 @@ Theorem C07_frame_conformant_indep_discharged : forall level sf sm sh, states_ok
     F = header_bytes (desc_of p) ++ enc_blocks (p_bcrc p =? 1) bl ++ le_bytes 4 0
         ++ (if p_ccrc p =? 1 then le_bytes 4 (xxh32 0 X) else []) /\
     X = contents bl /\
-    chain strict_valid (p_blockMode p =? 1) (dict_of NoDict) maxb [] bl /\
+    FrameCBlocks.chain strict_valid (p_blockMode p =? 1) (dict_of NoDict) maxb [] bl /\
     (p_contentSize p <> 0 -> p_contentSize p = len X) /\
     frame_audit strict_valid (dict_of NoDict) F = Some (desc_of p, X, [], Z.of_nat (length bl)) /\
     frame_decode strict_valid false (dict_of NoDict) F = Some (X, []).
@@ -259,7 +259,7 @@ Theorem C07_frame_conformant_fast_stream_discharged : forall level st, (forall n
   session (blk_fast_linked st level) c0 po dk ms = Some (F, X) ->
   frame_decode strict_valid false (dict_of dk) F = Some (X, []) /\
   exists maxb bl, bsid_size (p_bsid (eff_prefs po)) = Some maxb /\ X = contents bl /\
-    chain strict_valid (p_blockMode (eff_prefs po) =? 1) (dict_of dk) maxb [] bl.
+    FrameCBlocks.chain strict_valid (p_blockMode (eff_prefs po) =? 1) (dict_of dk) maxb [] bl.
 Proof. exact c07_conformant_fast_stream. Qed.
 Print Assumptions C07_frame_conformant_fast_stream_discharged.
 
@@ -270,7 +270,7 @@ Theorem C07_frame_conformant_hc_stream_discharged : forall st, (forall n, horc_o
   session (blk_hc_linked st) c0 po dk ms = Some (F, X) ->
   frame_decode strict_valid false (dict_of dk) F = Some (X, []) /\
   exists maxb bl, bsid_size (p_bsid (eff_prefs po)) = Some maxb /\ X = contents bl /\
-    chain strict_valid (p_blockMode (eff_prefs po) =? 1) (dict_of dk) maxb [] bl.
+    FrameCBlocks.chain strict_valid (p_blockMode (eff_prefs po) =? 1) (dict_of dk) maxb [] bl.
 Proof. exact c07_conformant_hc_stream. Qed.
 Print Assumptions C07_frame_conformant_hc_stream_discharged.
 
@@ -283,6 +283,6 @@ Theorem C07_frame_conformant_mid_stream_discharged : forall st, (forall n, morc_
   session (blk_mid_linked st) c0 po dk ms = Some (F, X) ->
   frame_decode strict_valid false (dict_of dk) F = Some (X, []) /\
   exists maxb bl, bsid_size (p_bsid (eff_prefs po)) = Some maxb /\ X = contents bl /\
-    chain strict_valid (p_blockMode (eff_prefs po) =? 1) (dict_of dk) maxb [] bl.
+    FrameCBlocks.chain strict_valid (p_blockMode (eff_prefs po) =? 1) (dict_of dk) maxb [] bl.
 Proof. exact c07_conformant_mid_stream. Qed.
 Print Assumptions C07_frame_conformant_mid_stream_discharged.
